@@ -339,3 +339,59 @@ VARIANTS["C19"] = [
     R("poisson-starstar", DP, "np.exp(-kmean) * pow(kmean, k) / factorial(k)", "kmean**k * np.exp(-kmean) / factorial(k)"),
     R("zeta-term-pow", DL, "term = 1.0 / k**s", "term = pow(k, -s)"),
 ]
+
+# ------------------------------------------------------------------------------------------- C05
+JDP = "gcmpy/joint_degree/joint_degree.py"
+VARIANTS["C05"] = [
+    M("plus-two", JDP, "                    t[i] += 1\n", "                    t[i] += 2\n", "C05.4"),
+    M("minus-one", JDP, "                    t[i] += 1\n", "                    t[i] -= 1\n", "C05.4"),
+    M("not-minimal", JDP, "for j in range(self._motif_sizes[i] - ntop % self._motif_sizes[i]):", "for j in range(self._motif_sizes[i]):", "C05.3"),
+    M("k-plus-one", JDP, "weights=weights, k=N)", "weights=weights, k=N + 1)", "C05.1"),
+    M("weights-dropped", JDP, "jds = random.choices(population=keys, weights=weights, k=N)", "jds = random.choices(population=keys, k=N)", "C05.1"),
+    M("wrong-column", JDP, "                    t[i] += 1\n", "                    t[0] += 1\n", "C05.4"),
+    M("revert-D4", JDP, "jds[j] = tuple(t)", "jds[j] = t", "C05.6"),
+    M("append-row", JDP, "                    jds[j] = tuple(t)\n", "                    jds[j] = tuple(t)\n                    jds.append(tuple(t))\n", "C05.5"),
+    M("guard-wrong-size", JDP, "if ntop % self._motif_sizes[i] != 0:", "if ntop % self._motif_sizes[0] != 0:", "C05.3"),
+    M("row-range-short", JDP, "j = random.randrange(0, len(jds))", "j = random.randrange(0, len(jds) - 1)", "C05.5"),
+    M("no-patch", JDP, "        return self.handshaking_lemma(jds)", "        return jds", "C05.7"),
+    M("sample-not-choices", JDP, "jds = random.choices(population=keys, weights=weights, k=N)", "jds = random.sample(keys, k=N)", "C05.1"),
+    M("weights-from-keys", JDP, "weights = list(self._jdd.values())", "weights = list(range(len(keys)))", ""),
+    M("return-in-loop", JDP, "                    jds[j] = tuple(t)\n        return jds", "                    jds[j] = tuple(t)\n            return jds", "C05.7"),
+    R("count-hoisted", JDP, "                for j in range(self._motif_sizes[i] - ntop % self._motif_sizes[i]):", "                missing = self._motif_sizes[i] - ntop % self._motif_sizes[i]\n                for j in range(missing):"),
+    R("positional-args", JDP, "random.choices(population=keys, weights=weights, k=N)", "random.choices(keys, weights, k=N)"),
+    R("randrange-one-arg", JDP, "random.randrange(0, len(jds))", "random.randrange(len(jds))"),
+    U("row-rebuilt", JDP, "                    t = list(jds[j])\n                    t[i] += 1\n                    jds[j] = tuple(t)", "                    jds[j] = tuple(jds[j][:i]) + (jds[j][i] + 1,) + tuple(jds[j][i + 1 :])"),
+]
+
+# ------------------------------------------------------------------------------------------- C06
+LF = "gcmpy/joint_degree/joint_degree_loaders/joint_degree_function.py"
+LM = "gcmpy/joint_degree/joint_degree_loaders/joint_degree_marginal.py"
+LMA = "gcmpy/joint_degree/joint_degree_loaders/joint_degree_manual.py"
+LE = "gcmpy/joint_degree/joint_degree_loaders/joint_degree_empirical.py"
+JF = "gcmpy/joint_degree/joint_degree_factory.py"
+VARIANTS["C06"] = [
+    M("revert-D5", LF, "        self._jdd = {}\n        # build list of lists", "        # build list of lists", "C06.1"),
+    M("freq-n-minus-1", JDP, "self._jdd[k] = v / n_samples", "self._jdd[k] = v / (n_samples - 1)", "C06.3"),
+    M("manual-normalises", LMA, "    def create_jdd(self) -> None:\n        return", "    def create_jdd(self) -> None:\n        self.normalise_jdd()", "C06.2"),
+    M("marginal-wrong-fp-index", LM, "prod *= self._arr_fp[i](deg)", "prod *= self._arr_fp[0](deg)", "C06.4"),
+    M("marginal-no-normalise", LM, "            self._jdd[key] = self.evaluate_prob_of_joint_degree(key)\n        self.normalise_jdd()", "            self._jdd[key] = self.evaluate_prob_of_joint_degree(key)", "C06.4"),
+    M("normalise-total-in-loop", JDP, "        summation: float = sum(self._jdd.values())\n        for key in self._jdd:\n            self._jdd[key] /= summation",
+      "        for key in self._jdd:\n            summation: float = sum(self._jdd.values())\n            self._jdd[key] /= summation", "C06.4"),
+    M("function-box-exclusive", LF, "list(range(kmin, kmax + 1))", "list(range(kmin, kmax))", "C06.6"),
+    M("sampling-pks-different-range", LM, "pks = [self._arr_fp[i](k) for k in ks]", "pks = [self._arr_fp[i](k) for k in range(kmin, kmax)]", "C06.5"),
+    M("factory-swapped", JF, "        if type == JointDegreeType.MANUAL:\n            return JointDegreeManual(params)\n        elif type == JointDegreeType.EMPIRICAL:\n            return JointDegreeEmpirical(params)",
+      "        if type == JointDegreeType.MANUAL:\n            return JointDegreeEmpirical(params)\n        elif type == JointDegreeType.EMPIRICAL:\n            return JointDegreeManual(params)", "C06.7"),
+    M("marginal-support-outside", LM, "ks.append([k for k in range(kmin, kmax)])", "ks.append([k for k in range(kmin, kmax + 2)])", "C06.4"),
+    M("empirical-sorted", LE, "self.convert_jds_to_jdd(self._empirical_jds)", "self.convert_jds_to_jdd(self._empirical_jds[1:])", "C06.3"),
+    M("manual-wrong-key", LMA, "self._jdd = params[JointDegreeNames.JDD]", "self._jdd = params[JointDegreeNames.JDS]", "C06.2"),
+    M("mode-inverted", LM, "        if not self._use_sampling:", "        if self._use_sampling:", "C06.4"),
+    M("sampling-wrong-fp", LM, "pks = [self._arr_fp[i](k) for k in ks]", "pks = [self._arr_fp[0](k) for k in ks]", "C06.5"),
+    M("function-wrong-arg", LF, "self._jdd[jd] = self._fp(jd)", "self._jdd[jd] = self._fp(jd[::-1])", "C06.6"),
+    M("motif-sizes-unset", LE, "            self._motif_sizes = params[JointDegreeNames.MOTIF_SIZES]\n", "", "C06.1"),
+    R("direct-dict-comprehension", LM, "        self._jdd = dict((key, 0.0) for key in self.generate_all_joint_degrees())\n        for key in self._jdd:\n            self._jdd[key] = self.evaluate_prob_of_joint_degree(key)\n",
+      "        self._jdd = {key: self.evaluate_prob_of_joint_degree(key) for key in self.generate_all_joint_degrees()}\n"),
+    R("marginal-inclusive", LM, "ks.append([k for k in range(kmin, kmax)])", "ks.append([k for k in range(kmin, kmax + 1)])"),
+    R("freq-len-inline", JDP, "            self._jdd[k] = v / n_samples", "            self._jdd[k] = v / len(jds)"),
+    R("eval-prod-comprehension", LM, "        prod: float = 1.0\n        for i, deg in enumerate(joint_degree):\n            prod *= self._arr_fp[i](deg)\n        return prod",
+      "        prod: float = 1.0\n        for idx in range(len(joint_degree)):\n            prod = prod * self._arr_fp[idx](joint_degree[idx])\n        return prod"),
+]
